@@ -118,8 +118,8 @@ package client
 //@   requires c.dataStore != nil
 //@   modifies heap(alloc), heap(model.Status.Status), heap(model.Status.StatusText), ghost sockq.calls, ghost sockq.err, ghost sockq.body, ghost sockq.method, ghost sockq.path,
 //@            ghost obs.json_st, ghost obs.json_err, ghost obs.json_calls, ghost obs.json_ok, ghost obs.json_last_ok, ghost obs.today_err, ghost obs.today
-//@   ensures [C08 live_status_wins] sockq.err == nil && obs.json_st != nil ==> (st == obs.json_st && err == nil)
-//@   ensures [C08 persisted_status_is_never_running] !(sockq.err == nil && obs.json_st != nil) && err == nil ==> (st != nil && st.Status != scheduler.StatusRunning)
+//@   ensures [C08,C16,C20 live_status_wins] sockq.err == nil && obs.json_st != nil ==> (st == obs.json_st && err == nil)
+//@   ensures [C08,C20 persisted_status_is_never_running] !(sockq.err == nil && obs.json_st != nil) && err == nil ==> (st != nil && st.Status != scheduler.StatusRunning)
 //@   ensures [C08 persisted_status_is_what_was_recorded] !(sockq.err == nil && obs.json_st != nil) && obs.today_err == nil ==>
 //@        (st == obs.today && err == nil)
 //@   ensures [C08 no_history_means_not_started] !(sockq.err == nil && obs.json_st != nil) &&
